@@ -20,6 +20,14 @@ is applied, children / cables / ports by position:
   ["rename_def", di, name]       definition.name = name
   ["repoint_all", di, ri]        re-share: every instance of definition di is re-pointed to definition ri
   ["remove_def", di]             remove an unreferenced definition (its children are un-referenced first)
+  ["new_block", li, name, leaf_di, nleaf, nports, ninst, seed]
+                                 bring hierarchy (back): a new definition in library li with nports one-bit
+                                 ports, nleaf instances of definition leaf_di and cables joining their pins and
+                                 the ports; instantiated ninst times in the top definition, its pins put on
+                                 existing wires of top (or new ones)
+  ["wrap_top", li, name]         a new top: a definition with the old top's port shape holding one instance of
+                                 the old top definition, ports wired straight through; netlist.top_instance
+                                 becomes a new instance of it (the old top instance is un-referenced)
 
 Ops are applied leniently (an op that does not fit the current netlist is skipped), so a materialised
 history replays on any tree.  `gen_ops` draws ops that keep the netlist well-formed and acyclic.
@@ -80,6 +88,64 @@ def apply_op(nl, op, fresh):
         return True
     if kind == "add_def":
         nl.libraries[op[1]].create_definition(name=op[2])
+        return True
+    if kind == "new_block":
+        import random
+        r = random.Random(op[7])
+        leaf = defs[op[3]]
+        top = nl.top_instance.reference
+        b = nl.libraries[op[1]].create_definition(name=op[2])
+        ports = []
+        for i in range(op[5]):
+            p = b.create_port(name="bp%d" % i)
+            p.direction = sdn.INOUT
+            p.create_pins(1)
+            ports.append(p)
+        kids = [b.create_child(name="bk%d" % i, reference=leaf) for i in range(op[4])]
+        free = [q for p in ports for q in p.pins] + [q for k in kids for q in k.pins]
+        r.shuffle(free)
+        ci = 0
+        while free:
+            c = b.create_cable(name="bn%d" % ci)
+            ci += 1
+            w = c.create_wire()
+            for _ in range(r.choice([1, 2, 2, 3])):
+                if free:
+                    w.connect_pin(free.pop())
+            if r.random() < 0.15:
+                break
+        wires = [w for c in top.cables for w in c.wires]
+        for i in range(op[6]):
+            k = top.create_child(name="%s_i%d" % (op[2], i), reference=b)
+            for pin in k.pins:
+                x = r.random()
+                if wires and x < 0.6:
+                    r.choice(wires).connect_pin(pin)
+                elif x < 0.85:
+                    w = top.create_cable(name=fresh()).create_wire()
+                    w.connect_pin(pin)
+                    wires.append(w)
+        return True
+    if kind == "wrap_top":
+        old_inst = nl.top_instance
+        old = old_inst.reference
+        nt = nl.libraries[op[1]].create_definition(name=op[2])
+        k = nt.create_child(name=op[2] + "_core", reference=old)
+        for pi, p in enumerate(old.ports):
+            np_ = nt.create_port(name=p.name if p.name is not None else None)
+            np_.direction = p.direction
+            if len(p.pins):
+                np_.create_pins(len(p.pins))
+            for bi, q in enumerate(p.pins):
+                if (pi + bi) % 5 == 4:
+                    continue                       # leave some port bits unconnected inside
+                w = nt.create_cable(name=fresh()).create_wire()
+                w.connect_pin(np_.pins[bi])
+                w.connect_pin(k.pins[q])
+        new_inst = sdn.Instance(name=op[2] + "_top")
+        new_inst.reference = nt
+        nl.top_instance = new_inst
+        old_inst.reference = None
         return True
     d = defs[op[1]]
     if kind == "rename_def":
@@ -197,9 +263,28 @@ import re as _re
 _UNIQ = _re.compile(r"^(.*)_sdn_unique_(\d+)$", _re.S)
 
 
-def gen_ops(rng, nl, tag, ctr=0):
+def gen_ops(rng, nl, tag, ctr=0, rehier=False):
     """a short edit script for the current state of `nl` (explicit ops); `ctr`: current value of the
-    transformation's name counter (names of uniquify's own form are drawn around it)"""
+    transformation's name counter (names of uniquify's own form are drawn around it); `rehier`: the
+    netlist has just been flattened — start with edits that bring hierarchy back"""
+    defs = all_defs(nl)
+    pre = []
+    true_leaves = [i for i, d in enumerate(defs) if not len(d.children) and not len(d.cables) and len(d.references)]
+    if (rehier or rng.random() < 0.12) and true_leaves:
+        nlibs = len(list(nl.libraries))
+        for j in range(rng.choice([1, 1, 2]) if rehier else 1):
+            if rehier and rng.random() < 0.25:
+                pre.append(["wrap_top", rng.randrange(nlibs), "wrap%s_%d" % (tag, j)])
+            else:
+                pre.append(["new_block", rng.randrange(nlibs), "blk%s_%d" % (tag, j), rng.choice(true_leaves),
+                            rng.randint(1, 3), rng.randint(0, 3), rng.choice([1, 1, 2, 2, 3]), rng.randrange(1 << 30)])
+        if rehier and rng.random() < 0.6:
+            return pre
+    ops = _gen_ops(rng, nl, tag, ctr)
+    return pre + ops
+
+
+def _gen_ops(rng, nl, tag, ctr=0):
     defs = all_defs(nl)
     top = nl.top_instance.reference
     ti = defs.index(top)
